@@ -24,6 +24,15 @@ def _mesa():
     return ms, core_ms
 
 
+# open finding G13b (known_findings.d/C16.txt): `_mesa_notify` asks `observer in current` - equality of weak references, for a
+# WeakMethod the owners' `==` - whether a handler is still subscribed at its turn: one that has unsubscribed while notified is
+# called again if the handler of an *equal* owner is still in the list.  Until that is repaired the generator does not combine
+# value-equal owners (`veq`) with handlers that make registry calls (`prog:`); the witness below is replayed on every run.
+VEQ_WITH_PROGS = False
+G13B_WITNESS = ["scenario sig 0:obs:change 1:lst:remove,replace,change,insert,append prog:1:u.*.*.1 veq",
+                "observe 0 change 3", "observe 0 change 1", "observe 0 * 1", "set 0 1", "subs", "set 0 2"]
+
+
 class SourceBroke(Exception):
     """raised by the iterable handed to extend / += (`lextendsrc`, `liaddsrc`) when it is asked for one item too many"""
 
@@ -92,16 +101,40 @@ class _HObj:
         self.impl.deliver(self.hid, signal)
 
 
+class _HVal(_HObj):
+    """owner of a bound-method handler that is a *value object* (header token `veq`), as a dataclass recorder is: two
+    of them compare equal (`__eq__`, no `__hash__`) exactly while they have recorded the same signals - in particular
+    two fresh ones.  Their bound methods are nevertheless different handlers (a bound method compares `__self__` by
+    identity): each subscription, unobserve and delivery concerns the one handler object that was passed."""
+
+    __hash__ = None
+
+    def __init__(self, impl, hid):
+        super().__init__(impl, hid)
+        self.log = []
+
+    def __eq__(self, other):
+        return isinstance(other, _HVal) and self.log == other.log
+
+    def __ne__(self, other):
+        return not self.__eq__(other)
+
+    def m(self, signal):
+        self.log.append((signal.name, signal.type, canon_val(signal.old), canon_val(signal.new), canon_idx(signal.get("index"))))
+        self.impl.deliver(self.hid, signal)
+
+
 class SigImpl:
     def __init__(self, header):
         ms, core_ms = _mesa()
         self.ms = ms
         toks = header.split()[2:]
         self.natural = "natural" in toks
+        self.veq = "veq" in toks          # owners of the bound-method handlers are value objects (_HVal)
         self.progs = {}
         groups, cur = [], []
         for t in toks:
-            if t == "natural":
+            if t in ("natural", "veq"):
                 continue
             if t.startswith("prog:"):
                 _, h, acts = t.split(":")
@@ -165,7 +198,7 @@ class SigImpl:
 
             fn.hid = hid
             return fn, fn
-        o = _HObj(self, hid)
+        o = (_HVal if self.veq else _HObj)(self, hid)
         return o, o.m
 
     def handler(self, hid):
@@ -418,6 +451,11 @@ def gen_list_op(R, nm, shadow):
     if d is None and R.random() < 0.85:
         k = "lassign"
     if k == "lassign":
+        others = [v for m, v in sorted(shadow.items()) if m != nm and v]
+        if others and R.random() < 0.3:
+            # the items another ObservableList of the object holds right now: the runner assigns that list object itself
+            # (`a.archive = a.inbox`), the assignment must copy it
+            return f"lassign {nm} {ints_arg(R.choice(others))}"
         return f"lassign {nm} {ints_arg(vals() + vals())}"
     if k in ("lset",):
         i = idx() if (R.random() < 0.25 or ln == 0) else R.randrange(-ln, ln)
@@ -545,10 +583,21 @@ def gen_sig_scenario(R, rejecting=False, n_ops=None):
         for h in active:
             toks.insert(at, f"prog:{h}:" + ",".join(gen_act(R, decls, nh, h, passive) for _ in range(R.choice([1, 1, 2]))))
         header = " ".join(toks)
+    veq = R.random() < 0.3 and (VEQ_WITH_PROGS or "prog:" not in header)
+    if veq:
+        # the owners of the bound-method handlers (odd ids) are value objects that compare equal while they have recorded
+        # the same signals (two dataclass recorders): different handlers all the same.  At least two of them, and the
+        # registry calls are mostly about them, so that equal owners meet in one subscriber list
+        toks = header.split()
+        toks.insert(len(toks) - 1 if toks[-1] == "natural" else len(toks), "veq")
+        header = " ".join(toks)
+        nh = max(nh, 4)
     lines = [header]
 
     def live_h():
         c = [h for h in range(nh) if h not in dead]
+        if veq and R.random() < 0.6:
+            c = [h for h in c if h % 2 == 1] or c
         return R.choice(c) if c else R.randrange(nh)
 
     def sel_n(p_all=0.3):
@@ -635,7 +684,7 @@ def _matches(sel, x):
 def oracle_sig(sc, obs):
     tr = sc.meta.get("trace") or []
     bad = []
-    toks = [t for t in sc.lines[0].split()[2:] if t not in ("|", "natural") and not t.startswith(("prog:", "ovr:"))]
+    toks = [t for t in sc.lines[0].split()[2:] if t not in ("|", "natural", "veq") and not t.startswith(("prog:", "ovr:"))]
     progs = {int(t.split(":")[1]): t.split(":")[2].split(",") for t in sc.lines[0].split()[2:] if t.startswith("prog:")}
     decls = [(int(t.split(":")[0]), t.split(":")[1]) for t in toks]
     kind = dict(decls)
@@ -837,6 +886,8 @@ def tags_sig(sc, obs):
             if e[2][0] == "u" and e[2].split(".")[3] == str(e[1]):
                 yield "branch:handler-unsubscribed-itself-while-notified"
     yield f"classes:{sc.lines[0].split().count('|') + 1}"
+    if "veq" in sc.lines[0].split():
+        yield "mode:value-equal-handler-owners"
     for l, o in zip(sc.lines[1:], obs[1:]):
         w = l.split()
         yield "op:" + w[0]
